@@ -67,6 +67,10 @@ def Ty.ok : Ty → Obj → Bool
   | .arr, .arr _ => true
   | _, _ => false
 
+def _root_.PdfVerif.Content.Obj.isBool : Obj → Bool
+  | .bool _ => true
+  | _ => false
+
 def wellTyped : List Ty → List Obj → Bool
   | [], [] => true
   | t :: ts, o :: os => t.ok o && wellTyped ts os
@@ -269,6 +273,7 @@ def step (env : Env) (runForm : Form → GS → Res → Option (List Glyph)) (s 
   | none => none
   | some tys =>
     if !(allowed s.txt.isSome i.op) then none
+    else if i.args.any Obj.isBool then none          -- pdfminer's casts read `true` as 1.0: outside the domain
     else if tys.length < i.args.length then none
     else if !(wellTyped tys i.args) then some (s, [])
     else apply env runForm s i.op i.args
